@@ -221,12 +221,40 @@ def in_band(n, v, part):
 # oracle (worker side)
 # ------------------------------------------------------------------------------------------------
 
-def build_gate(cls, v, opts):
+def build_gate(cls, v, opts, label=None):
     import qclib.state_preparation as sp
     klass = getattr(sp, cls)
+    kw = {} if label is None else {"label": label}
     if cls == "SVDInitialize":
-        return klass(v)
-    return klass(v, opt_params=copy.deepcopy(opts))
+        return klass(v, **kw)
+    return klass(v, opt_params=copy.deepcopy(opts), **kw)
+
+
+def build_entry(cls, v, opts, entry):
+    """The static helper `Class.initialize(q_circuit, state, qubits, opt_params)` on a circuit of `entry["width"]` wires;
+    `entry["qubits"]` is None (all wires of the circuit) or the explicit list of wires."""
+    import qclib.state_preparation as sp
+    from qiskit import QuantumCircuit
+    klass = getattr(sp, cls)
+    qc = QuantumCircuit(entry["width"])
+    if cls == "SVDInitialize":
+        klass.initialize(qc, v, qubits=entry["qubits"])
+    else:
+        klass.initialize(qc, v, qubits=entry["qubits"], opt_params=copy.deepcopy(opts))
+    return qc
+
+
+def embed(v, entry):
+    """Ideal state of the wider circuit: gate qubit i sits on wire entry["qubits"][i], the other wires stay |0>."""
+    n = int(round(math.log2(len(v))))
+    qs = entry["qubits"] if entry["qubits"] is not None else list(range(n))
+    out = np.zeros(2 ** entry["width"], dtype=complex)
+    for k in range(len(v)):
+        idx = 0
+        for i in range(n):
+            idx |= ((k >> i) & 1) << qs[i]
+        out[idx] = v[k]
+    return out
 
 
 def eval_case(task):
@@ -241,12 +269,34 @@ def eval_case(task):
     v = np.array(task["re"]) + 1j * np.array(task["im"])
     n = task["n"]
     out = {"key": task["key"]}
+    entry = task.get("entry")
+    if entry:
+        # the documented static entry point: append to a caller's circuit (all wires / an explicit wire list)
+        try:
+            qc = build_entry(task["cls"], np.array(v, copy=True), task["opts"], entry)
+            sv = Statevector(qc).data
+        except Exception as ex:
+            out.update(status="raises", detail=f"{type(ex).__name__}: {str(ex)[:300]}")
+            return out
+        want = embed(v, entry)
+        err = float(np.abs(sv - want).max())
+        out["err"] = err
+        if not err <= TOL:
+            k = int(np.argmax(np.abs(sv - want)))
+            out.update(status="fail", detail=f"{task['cls']}.initialize(circuit[{entry['width']}], v, qubits={entry['qubits']}): "
+                                             f"amplitude {k}: prepared {sv[k]:.9f}, wanted {want[k]:.9f} (max err {err:.3e})")
+        else:
+            out["status"] = "ok"
+        return out
     try:
-        gate = build_gate(task["cls"], np.array(v, copy=True), task["opts"])
+        gate = build_gate(task["cls"], np.array(v, copy=True), task["opts"], task.get("label"))
         d = gate.definition
         sv = Statevector(d).data
     except Exception as ex:   # construction must never fail on a valid vector
         out.update(status="raises", detail=f"{type(ex).__name__}: {str(ex)[:300]}")
+        return out
+    if task.get("label") is not None and gate.label != task["label"]:
+        out.update(status="fail", detail=f"label {task['label']!r} passed, gate.label is {gate.label!r}")
         return out
     if d.num_qubits != n or gate.num_qubits != n or len(sv) != len(v):
         out.update(status="fail", detail=f"circuit on {d.num_qubits} qubits (declared {gate.num_qubits}) for a {n}-qubit vector")
@@ -286,7 +336,7 @@ def recheck_without_a2(task, v, ph):
     import qclib.unitary as qu
     try:
         with mock.patch.object(qu, "_apply_a2", lambda circuit: circuit):
-            gate = build_gate(task["cls"], np.array(v, copy=True), task["opts"])
+            gate = build_gate(task["cls"], np.array(v, copy=True), task["opts"], task.get("label"))
             sv = Statevector(gate.definition).data
         if task.get("upto_phase"):
             ov = np.vdot(v, sv)
@@ -308,12 +358,12 @@ def optkey(opts):
     return ";".join(parts)
 
 
-def make_task(cls, opts, n, family, idx, v, upto_phase=False, tag=None):
+def make_task(cls, opts, n, family, idx, v, upto_phase=False, tag=None, label=None, entry=None):
     import framework
     base = tag or f"{cls}:{optkey(opts)}"
     return {"repo": framework.REPO, "cls": cls, "opts": opts, "n": n, "family": family,
             "re": [float(x) for x in np.real(v)], "im": [float(x) for x in np.imag(v)],
-            "upto_phase": bool(upto_phase), "key": f"{base}:n={n}:{family}:{idx}"}
+            "upto_phase": bool(upto_phase), "key": f"{base}:n={n}:{family}:{idx}", "label": label, "entry": entry}
 
 
 def run_tasks(ctx, tasks):
@@ -339,7 +389,10 @@ def record(ctx, task, res):
     nz = int(np.sum(np.abs(v) > 0))
     rep = {"cls": task["cls"], "opts": task["opts"], "n": task["n"], "family": task["family"],
            "re": task["re"], "im": task["im"], "upto_phase": task["upto_phase"], "key": task["key"],
-           "call": f"Statevector({task['cls']}(v, opt_params={task['opts']}).definition)"}
+           "label": task.get("label"), "entry": task.get("entry"),
+           "call": (f"{task['cls']}.initialize(QuantumCircuit({task['entry']['width']}), v, qubits={task['entry']['qubits']}, "
+                    f"opt_params={task['opts']})" if task.get("entry") else
+                    f"Statevector({task['cls']}(v, opt_params={task['opts']}, label={task.get('label')!r}).definition)")}
     ctx.count(f"oracle:{task['cls']}")
     ctx.count(f"family:{task['family']}")
     if res["status"] == "ok":
@@ -517,9 +570,166 @@ def probe_a2(ctx):
     return [make_task("LowRankInitialize", {"partition": [0]}, 3, "a2_probe", 0, v)]
 
 
+# ------------------------------------------------------------------------------------------------
+# branch coverage of the anchored sources (tools/branch_audit.py C01): entry points and option
+# values that the family x option grid above never passes
+# ------------------------------------------------------------------------------------------------
+
+ALL_CLASSES = ["TopDownInitialize", "UCGInitialize", "UCGEInitialize", "IsometryInitialize", "SVDInitialize",
+               "LowRankInitialize", "BaaLowRankInitialize"]
+
+UNREACHED_JUSTIFIED = {
+    "qclib/state_preparation/lowrank.py:224": "cnot_count(partition=...) is the CNOT estimate (C10); C01 reaches it only through BAA, which passes no partition",
+    "qclib/state_preparation/ucg.py:143-144,203-207,224-227": "target bit '1' needs target_state != 0: preparation from |t>, t > 0, is property C12 (C01 states |0..0>)",
+    "qclib/state_preparation/ucge.py:136-137": "target bit '1' (target_state != 0): property C12",
+    "qclib/state_preparation/ucge.py:106-107": "UCGEInitialize with preserve_previous=True is outside C01's option list and C12 states preserve for the plain variant only (see the note of run_oracle)",
+    "qclib/state_preparation/isometry.py:69-76": "scheme='qiskit' delegates to QuantumCircuit.isometry, which the installed qiskit no longer has; not in C01's scheme list {ccd, csd, knill}",
+    "qclib/state_preparation/util/state_tree_preparation.py:__str__": "debug printing",
+    "qclib/state_preparation/util/angle_tree_preparation.py:__str__": "debug printing",
+    "qclib/state_preparation/util/angle_tree_preparation.py:59-60": "dead: mag is a quotient of an abs() and a sqrt(), never negative (the upper clamp at 61-62 IS reached, family 'denormal')",
+    "qclib/state_preparation/util/tree_walk.py:43-45": "start_level > 0 is passed only by the bidirectional initializer (not a C01 class); topdown.py always passes 0",
+    "qclib/state_preparation/util/tree_walk.py:bottom_up,_apply_cswaps": "used by the divide-and-conquer / bidirectional initializers only",
+    "qclib/entanglement.py:_get_iota,generalized_cross_product,geometric_entanglement,meyer_wallach_entanglement,qb_approximation": "entanglement measures, not used by any dense initializer",
+    "qclib/entanglement.py:schmidt_composition": "inverse of schmidt_decomposition, property C09; no initializer calls it",
+    "qclib/unitary.py:40-47": "validation raises of unitary(): rejection is property C16; the SVD factors handed over by the initializers are unitary",
+    "qclib/unitary.py:53-57": "fallback when qiskit's A.2 pass raises: probed by C02/C03 (unitary-a2-fallback:hadamard3-iso2); states built from two Hadamard columns as Schmidt vectors were pre-screened and do not reach it (the SVD returns the columns with other signs)",
+    "qclib/unitary.py:104-105,_qrd,_build_qr_circuit,_build_qr_gate_sequence,_get_row_col,_row_and_col_qubits,_apply_cx,_apply_mcxs,_undo_mcxs,_append_mcmt_gate": "decomposition='qr' is never selected by an initializer (unitary_scheme in {qsd, csd}); property C02",
+    "qclib/unitary.py:225-296": "cnot_count and its estimates: property C10",
+    "qclib/isometry.py:74-85": "validation raises of _check_isometry: property C16; a unit vector is a valid 2^n x 1 isometry",
+    "qclib/isometry.py:104-105": "knill on fewer than two qubits raises by design (documented ValueError); C01 starts knill at n = 2",
+    "qclib/isometry.py:149-151": "_extend_to_unitary of a square matrix: LowRankInitialize._encode sends square blocks to decompose_unitary, state vectors are 2^n x 1",
+    "qclib/isometry.py:341-368,440-443,_cnot_count_estimate_knill": "cnot_count and its estimates: property C10",
+}
+
+
+def _pick_clamp_amplitude():
+    """A positive float r whose square is subnormal and rounds DOWN, so that the state tree gives the node (0, r) the
+    magnitude sqrt(0.0**2 + r**2) < r and `create_angles_tree` sees mag = r / sqrt(r**2) > 1.0: the only way to the upper
+    clamp of angle_tree_preparation.py:61-62 (for normal floats sqrt(fl(x*x)) == x).  Chosen by float arithmetic alone, not
+    by running the code under test, so that the case is generated whatever the code does with it."""
+    for k in range(1, 400):
+        r = (1.0 + k / 397.0) * 1e-160
+        p = math.sqrt(0.0 ** 2 + r ** 2)
+        if p != 0.0 and r / p > 1.0:
+            return r
+    return None
+
+
+def clamp_branch_taken(v):
+    """Evidence that the real create_angles_tree took a clamp branch on v: a node for which `asin` was not called
+    (recording proxy of the module's `math`).  Returns the number of such nodes (None if the real code raised)."""
+    import qclib.state_preparation.util.angle_tree_preparation as atp
+    from qclib.state_preparation.util.state_tree_preparation import state_decomposition, Amplitude
+
+    class MathProxy:
+        pi = math.pi
+
+        def __init__(self):
+            self.asin_calls = 0
+
+        def asin(self, x):
+            self.asin_calls += 1
+            return math.asin(x)
+
+    proxy, orig = MathProxy(), atp.math
+    atp.math = proxy
+    try:
+        n = int(round(math.log2(len(v))))
+        atp.create_angles_tree(state_decomposition(n, [Amplitude(i, complex(a)) for i, a in enumerate(v)]))
+    except Exception:
+        return None
+    finally:
+        atp.math = orig
+    return (len(v) - 1) - proxy.asin_calls
+
+
+def clamp_vectors():
+    """Unit vectors (to machine precision) with one amplitude r ~ 1e-160 alone under its parent."""
+    r = _pick_clamp_amplitude()
+    if r is None:
+        return []
+    return [np.array(x, dtype=complex) for x in
+            ([1.0, 0.0, 0.0, r], [0.0, r, 0.6, 0.8j], [0.6, 0, 0, 0, 0.8, 0, 0, -r], [0.0, 1j * r, 0.0, 0.0, 0.0, 0.0, 0.0, -1.0])]
+
+
+def gen_branch_tasks(ctx):
+    r = ctx.nprng()
+    tasks = []
+
+    def opts_for(cls, j):
+        if cls == "IsometryInitialize":
+            return {"scheme": ["ccd", "csd", "knill"][j % 3]}
+        if cls == "LowRankInitialize":
+            return {"iso_scheme": ISO[j % 3], "unitary_scheme": UNI[j % 2]}
+        if cls == "BaaLowRankInitialize":
+            return {"max_fidelity_loss": 0.0, "strategy": ["greedy", "brute_force"][j % 2]}
+        return None
+
+    j = 0
+    for cls in ALL_CLASSES:
+        for n in (1, 2, 3, 4):
+            if n < 2 and cls == "SVDInitialize":
+                continue
+            for fam in ("complex", "sparse", "real_signed"):
+                j += 1
+                opts = opts_for(cls, j) if j % 2 else None
+                if n < 2 and opts and opts.get("scheme") == "knill":
+                    opts = {"scheme": "ccd"}
+                v = make_vector(r, n, fam)
+                # (1) an explicit label (the `if label is None` default is skipped)
+                if fam == "complex":
+                    tasks.append(make_task(cls, opts, n, fam, 0, v, label=f"my {cls[:3]} {n}",
+                                           tag=f"{cls}:label:{optkey(opts)}"))
+                    ctx.count("branch:label-given")
+                # (2) static Class.initialize(circuit, state): qubits=None appends on all wires of the circuit
+                if fam == "sparse" or n == 1:
+                    tasks.append(make_task(cls, opts, n, fam, 0, v, entry={"width": n, "qubits": None},
+                                           tag=f"{cls}:initialize:qubits=None:{optkey(opts)}"))
+                    ctx.count("branch:initialize:qubits=None")
+                # (3) ... and an explicit wire list (a shuffled selection of n wires of an (n+1)-wire circuit)
+                if fam == "real_signed" or n == 1:
+                    qs = ctx.rng.sample(range(n + 1), n)
+                    tasks.append(make_task(cls, opts, n, fam, 0, v, entry={"width": n + 1, "qubits": qs},
+                                           tag=f"{cls}:initialize:qubits={','.join(map(str, qs))}:{optkey(opts)}"))
+                    ctx.count("branch:initialize:qubits=list")
+
+    # (4) an option dictionary that names none of the options (every `opt_params.get(..) is None` default)
+    for cls in ALL_CLASSES:
+        if cls in ("SVDInitialize", "UCGInitialize", "UCGEInitialize"):
+            continue      # no opt_params / `target_state` has no default inside a dictionary (None // 2 raises)
+        for n in (1, 2, 3):
+            for fam in ("complex", "zero_subtree"):
+                tasks.append(make_task(cls, {}, n, fam, 0, make_vector(r, n, fam), tag=f"{cls}:empty-options"))
+                ctx.count("branch:opt_params={}")
+    # UCG/UCGE: preserve_previous left out of the dictionary (None = do not preserve)
+    for cls in ("UCGInitialize", "UCGEInitialize"):
+        for n in (1, 2, 3):
+            tasks.append(make_task(cls, {"target_state": 0}, n, "complex", 0, make_vector(r, n, "complex")))
+            ctx.count("branch:ucg:preserve-omitted")
+
+    # (5) BAA: an allowed loss outside [0, 1] "will be ignored" (docstring) = zero loss, exact preparation
+    for mfl in (-0.25, 1.5):
+        for n in (2, 3, 4):
+            for fam, strategy in (("complex", "greedy"), ("ghz", "brute_force"), ("rankdef", "greedy")):
+                v = make_vector(r, n, fam)
+                tasks.append(make_task("BaaLowRankInitialize", {"max_fidelity_loss": mfl, "strategy": strategy}, n, fam, 0, v))
+                ctx.count("branch:baa:loss-out-of-range-ignored")
+
+    # (6) the upper clamp of create_angles_tree (mag > 1.0 by one rounding error; needs a subnormal square)
+    for i, v in enumerate(clamp_vectors()):
+        n = int(round(math.log2(len(v))))
+        for cls, opts in (("TopDownInitialize", None), ("TopDownInitialize", {"global_phase": True}), ("LowRankInitialize", None),
+                          ("BaaLowRankInitialize", None)):
+            if cls != "TopDownInitialize" and i:
+                continue
+            tasks.append(make_task(cls, opts, n, "denormal", i, v))
+            ctx.count("branch:topdown:clamp-upper(oracle)")
+    return tasks
+
+
 def run_oracle(ctx, nmax=None):
     nmax = nmax or (6 if ctx.quick else 8)
-    tasks = gen_tasks(ctx, nmax) + probe_unsorted(ctx) + probe_a2(ctx)
+    tasks = gen_tasks(ctx, nmax) + gen_branch_tasks(ctx) + probe_unsorted(ctx) + probe_a2(ctx)
     run_tasks(ctx, tasks)
     ctx.notes.append("UCGEInitialize with preserve_previous=True is NOT exercised (outside C01's option list; C12 states "
                      "'preserve' for the plain variant only). Observed on the unchanged tree: it prepares a wrong state whenever "
@@ -671,6 +881,16 @@ def run_tie_topdown(ctx, nmax=None):
                 v = make_vector(r, n, fam)
                 for gp in (None, True, False):
                     tie_topdown(ctx, v, gp, fam)
+    # the upper clamp of create_angles_tree (angle_tree_preparation.py:61-62): the Float model takes the same branch
+    cv = clamp_vectors()
+    if not cv:
+        ctx.notes.append("no amplitude found whose subnormal square rounds down: the clamp branch of create_angles_tree "
+                         "was not exercised")
+    for v in cv:
+        ctx.count("branch:topdown:clamp-upper:nodes-clamped", clamp_branch_taken(v) or 0)
+        for gp in (None, False):
+            tie_topdown(ctx, v, gp, "denormal")
+            ctx.count("branch:topdown:clamp-upper(tie)")
     ctx.notes.append("tie TopDown: angles compared to 1e-7 (2*asin near 1 amplifies one ulp to 3e-8), global phase modulo 2pi "
                      "(qiskit normalises circuit.global_phase); lib='qiskit' is qiskit's own initialize (K4, oracle only)")
 
@@ -1087,6 +1307,7 @@ def search(ctx, hints):
 def replay(ctx, payload):
     rp = payload["replay"]
     v = np.array(rp["re"]) + 1j * np.array(rp["im"])
-    t = make_task(rp["cls"], rp["opts"], rp["n"], rp.get("family", "replay"), 0, v, upto_phase=rp.get("upto_phase", False))
+    t = make_task(rp["cls"], rp["opts"], rp["n"], rp.get("family", "replay"), 0, v, upto_phase=rp.get("upto_phase", False),
+                  label=rp.get("label"), entry=rp.get("entry"))
     t["key"] = rp.get("key", t["key"])
     record(ctx, t, eval_case(t))
